@@ -245,3 +245,30 @@ func VP_PDF_level() {
 	}
 	vpCover("reached", true)
 }
+
+
+// C15 / C16: purity
+func VP_PDF_pure() {
+	n := vpConfig("n")
+	content := vpString("c", n)
+	for i := 0; i < n; i++ {
+		vpAssume(content[i] >= 'A' && content[i] <= 'Z')
+	}
+	vpTrackGlobals()
+	a, errA := Encode(content, 2)
+	_, _ = Encode("something else 1234567890", 4)
+	b, errB := Encode(content, 2)
+	vpAssert((errA == nil) == (errB == nil), "the same call succeeds or fails the same way every time")
+	if errA == nil && errB == nil {
+		vpAssert(a.Bounds() == b.Bounds() && a.Content() == b.Content(), "the same call returns the same barcode whatever was encoded before")
+		if a.Bounds() == b.Bounds() {
+			for x := 0; x < a.Bounds().Dx(); x++ {
+				for y := 0; y < a.Bounds().Dy(); y++ {
+					vpAssert(a.At(x, y) == b.At(x, y), "the same call returns the same pixels whatever was encoded before")
+				}
+			}
+		}
+	}
+	vpAssert(vpGlobalWrites() == 0, "no package-level state is written")
+	vpCover("reached", true)
+}
